@@ -195,7 +195,13 @@ pub fn run(args: &Args, rep: &mut Report) {
             check_bundle(&ctx, rng, rep, name, sb, &|| json!({"recorded_bundle": name}), None);
             return;
         }
-        let b = gen_bundle(rng, &params);
+        let b = if i % 3000 == 1777 {
+            let n = *rng.pick(&[5999usize, 6000, 6001]);
+            rep.count(&format!("spend-limit-stratum:{n}"));
+            vcore::bundlegen::many_spends(rng, n)
+        } else {
+            gen_bundle(rng, &params)
+        };
         if !b.as_spendbundle_ok() {
             rep.count("skipped:malformed-coin-fields");
             return;
